@@ -69,7 +69,7 @@ def pointwise_constants(tier):
         rvals += [(-8, 1), (-9, 4), (-7, 4), (-5, 4), (-9, 8), (-7, 8), (-1, 8), (1, 8), (7, 8), (9, 8), (5, 4),
                   (7, 4), (9, 4), (8, 1)]
     c = {
-        "ValPool": "{-4, 0, 2, 8}" if not thorough else "{-4, 0, 2, 8, 5}",
+        "ValPool": "{-4, 0, 2, 8}" if not thorough else "{-4, 0, 2, 8, 6}",   # even: midpoints stay on the lattice
         "ThrPool": "{-6, -2, 1, 4, 10}" if not thorough else "{-6, -2, 1, 4, 7, 10}",
         "Grid": "[i \\in 1..21 |-> i - 9]",
         "EqGrids": "{<<0, 1, 2, 3>>, <<-8, 0, 4, 5, 9>>, <<0, 4, 8>>, <<2, 2, 2, 6>>, <<-3, 3>>}",
@@ -349,7 +349,9 @@ def replay_exact(col, states, pid):
             col.traces += 1
             # shift: "the field will be shifted by that value before transformation"
             for sh in (0.0, 1.0, -0.5):
-                out = array_boxcox(ys - sh, lmbda=float(k), shift=sh) if sh else array_boxcox(ys.copy(), lmbda=float(k))
+                with warnings.catch_warnings():
+                    warnings.simplefilter("ignore")
+                    out = array_boxcox(ys - sh, lmbda=float(k), shift=sh) if sh else array_boxcox(ys.copy(), lmbda=float(k))
                 ok = _relclose(out, xs, 1e-12)
                 if not ok.all():
                     i = int(np.flatnonzero(~ok)[0])
@@ -620,8 +622,7 @@ def pipeline_plan(pid, tier):
             for kind in ("Field", "SRF"):
                 for mean in ("none", "const", "call"):
                     plan.append(("%s_t2_%s" % (kind, mean), kind,
-                                 dict(maxcalls=1, maxtrans=2, means=(mean,), m2=(("lognormal", "-"), ("binary", "default"),
-                                                                                  ("identity", "-"))), 3))
+                                 dict(maxcalls=1, maxtrans=2, means=(mean,), m2=(("lognormal", "-"), ("binary", "default"))), 3))
         else:
             plan.append(("SRF_t2", "SRF", dict(maxcalls=1, maxtrans=2, means=("const",), norms=(True,),
                                                trends=("none", "call"), m2=(("lognormal", "-"),)), 3))
@@ -1126,7 +1127,14 @@ def replay_history(col, kind, cfg, hist, flavour, phase, inst_cache, verbose=Fal
                     else:
                         # 2. the same value from the base through the cancelled term, wherever every
                         #    intermediate step is defined (pre-processing inverts post-processing)
-                        term = inst.evaluate(rec["res"])
+                        #    (not after a second thresholding step: a class boundary may then coincide with a
+                        #    value of the first transformation up to rounding)
+                        fns = [t for t in rec["res"][1:] if t.startswith("fn:")]
+                        if any(t.split(":")[1] in ("binary", "discrete") for t in fns[1:]):
+                            continue_term = False
+                        else:
+                            continue_term = True
+                        term = inst.evaluate(rec["res"]) if continue_term else lit
                         fin = np.isfinite(lit)
                         if verbose:
                             print("      term %s -> %s" % (rec["res"], term.tolist()))
@@ -1209,7 +1217,7 @@ def _pipeline_worker(job):
     for s in full:
         cfg = s["cfg"]
         if cfg["norm"]:
-            if tier == "thorough":
+            if tier == "thorough" and not (phase == "transforms" and length > 2):
                 flavours = FLAVOURS
             else:
                 flavours = (FLAVOURS[zlib.crc32(repr(tlaval.freeze(s["hist"])).encode()) % len(FLAVOURS)],)
